@@ -34,6 +34,23 @@ func (c01) Rule() string {
 	return "type-blind programs over the whole grammar (every expression form in every operand position, extreme integers, every slice form with hostile bounds and steps, object-less index expressions, attribute expressions, compound assignments on every target kind) in which every call is a shipped builtin with an argument shape its checker accepts (or a probe), loaded with the real loader together with a sibling script and, if accepted, run on two hostile points (all InitPt field types plus unsupported ones, NaN, huge uint64, colliding keys); builtin-shapes (exhaustive): every builtin shape x every subject kind. Refuted by a panic, a process death, or a returned error without a position inside the script that was running. Non-trivial = accepted, at least 3 nodes executed and a slice / index / builtin / compound assignment / loop reached. Distinct = distinct (program, point)."
 }
 
+// ways of building a value from which a cycle is reachable (w is what gets used)
+var c01Cycles = []string{
+	"a = [1, 2]\na[0] = a\nw = a",
+	"a = [1, 2]\na[0] = a\nw = [a]",
+	"a = [1, 2]\na[1] = a\nw = {\"outer\": a}",
+	"m = {\"k\": 1}\nm[\"k\"] = m\nw = [0, {\"in\": m}]",
+	"a = [0]\nb = [a]\na[0] = b\nw = [b, a]",
+	"a = [[0]]\na[0][0] = a\nw = a[0]",
+	"m = {\"x\": [1]}\nm[\"x\"][0] = m\nw = m[\"x\"]",
+	"a = [1, 2]\na[0] = a\nw = [[[[a]]]]",
+}
+var c01CycleUses = []string{"strfmt(x, \"%v\", w)", "printf(\"%v\\n\", w)", "strfmt(x, \"%d %s\", 1, w)", "add_key(x, w)", "set_tag(t9, w)", "p(w == w, w in w, len(w))",
+	"p(w)", "for e in w { p(len(e)) }", "x = w\ntrim(x)", "x = w\nuppercase(x)", "x = w\ncast(x, \"str\")", "printf(\"%s %v %q\\n\", w, w, w)",
+	"x = w\ncast(x, \"int\")", "x = w\ncast(x, \"bool\")", "x = w\ncast(x, \"float\")", "x = w\ndatetime(x, \"s\", \"RFC3339\")", "x = w\nurl_decode(x)",
+	"x = w\nsql_cover(x)", "x = w\ngrok(x, \"%{WORD:q}\")", "x = w\nxml(x, \"/a\", q)", "x = w\ndefault_time(x)", "x = w\nreplace(x, \"a\", \"b\")",
+	"x = w\nset_measurement(x)", "x = w\nq = load_json(x)", "x = w\nrename(y, x)", "x = w\nset_tag(x)", "x = w\nadd_key(x)", "if w { p(1) }", "p(!w, w + 1)", "p(w[0:1], w[0])"}
+
 var c01Subjects = []string{"nil", "true", "7", "-9223372036854775807", "2.5", "nan", `""`, `"text"`, `"héllo wörld"`, `"[1,2"`, `"%41%zz"`,
 	`"<a id='1'><b>x</b><b>y</b></a>"`, `"2021-05-27 06:54:14.760 UTC"`, `"select * from t where id = 1"`, "[1, \"a\", [2]]", `{"k": 1}`, "[]", "void()"}
 
@@ -45,7 +62,7 @@ func (c01) Plan(tier string, seed int64) []mon.Workload {
 	return []mon.Workload{
 		{Name: "programs", N: n},
 		{Name: "builtin-shapes", N: int64(len(gen.Shapes) * len(c01Subjects) * 4), Exhaustive: true},
-		{Name: "self-containing", N: 6},
+		{Name: "self-containing", N: int64(6 + len(c01Cycles)*len(c01CycleUses))},
 		{Name: "store-consume", N: int64(len(c01Stores) * len(c01StoreVals) * len(c01Consumers)), Exhaustive: true},
 	}
 }
@@ -127,6 +144,19 @@ func (c01) build(c *mon.Ctx, workload string, i int64) (main []*gt.T, lib []*gt.
 		}
 		return gt.CloneStmts(l), []*gt.T{gt.Call("p", gt.Str("lib"))}
 	case "self-containing":
+		if i >= 6 {
+			i -= 6
+			text := c01Cycles[int(i)/len(c01CycleUses)] + "\n" + c01CycleUses[int(i)%len(c01CycleUses)] + "\np(\"survived\")\n"
+			o := drive.Parse("cyc", text)
+			if o.Err != nil {
+				panic("c01: cycle program does not parse: " + text)
+			}
+			l, err := gt.FromStmts(o.Stmts)
+			if err != nil {
+				panic(err)
+			}
+			return gt.CloneStmts(l), []*gt.T{gt.Call("p", gt.Str("lib"))}
+		}
 		a := gt.Assign("=", gt.Ident("a"), gt.List(gt.Int(1), gt.Int(2)))
 		self := gt.Assign("=", gt.Index("a", gt.Int(0)), gt.Ident("a"))
 		var use *gt.T
